@@ -534,7 +534,7 @@ def mthi(arg1):
 def mtlo(arg1):
     R_LO = arg1
 
-def clz(ir, instr, rs, rd):
+def clz(ir, instr, rd, rs):
     e = []
     e.append(m2_expr.ExprAssign(rd, m2_expr.ExprOp('cntleadzeros', rs)))
     return e, []
